@@ -173,11 +173,13 @@ func init() {
 	})
 	register(&Property{
 		ID: "C45",
-		Explanation: "Decides the 'no entry for other node types' clause: (dumpable-filter) every send of a *data.Node on a channel in package dump — the only way a node reaches the tar/zip writers — is reachable only on an edge where that node's Type equals file, dir or symlink, at the top level of the dumped directory as well as for nested nodes (this rule reported the genuine defect in sendNodes, now fixed); (format-siblings) dumpNodeTar and dumpNodeZip distinguish exactly these three types. (ordered-content) in Dumper.writeNode the order of a file's blobs survives concurrent loading: every loader goroutine sends the blob it loaded for the loop's element of node.Content on a channel created in that same iteration, the loop itself queues that channel on the FIFO channel of channels, and the single writer goroutine (started once, the only caller of Write) writes what it receives from each queued channel in turn — one shared result channel, or a writer not following the queue, is a violation (added after a seeded change that hoisted the channel out of the loop); (every-dumpable-sent) the walk callback of sendNodes returns only nil, the error it was handed or ctx.Err() — never the walker's skip sentinel, which would drop all later siblings — and returns nil for a node only after offering it to the writer unless the node is nil or its type is none of file, dir, symlink (added after a seeded change). Not decided: entry order across directories, permission bits and link targets.",
+		Explanation: "Decides the 'no entry for other node types' clause: (dumpable-filter) every send of a *data.Node on a channel in package dump — the only way a node reaches the tar/zip writers — is reachable only on an edge where that node's Type equals file, dir or symlink, at the top level of the dumped directory as well as for nested nodes (this rule reported the genuine defect in sendNodes, now fixed); (format-siblings) dumpNodeTar and dumpNodeZip distinguish exactly these three types. (ordered-content) in Dumper.writeNode the order of a file's blobs survives concurrent loading: every loader goroutine sends the blob it loaded for the loop's element of node.Content on a channel created in that same iteration, the loop itself queues that channel on the FIFO channel of channels, and the single writer goroutine (started once, the only caller of Write) writes what it receives from each queued channel in turn — one shared result channel, or a writer not following the queue, is a violation (added after a seeded change that hoisted the channel out of the loop); (every-dumpable-sent) the walk callback of sendNodes returns only nil, the error it was handed or ctx.Err() — never the walker's skip sentinel, which would drop all later siblings — and returns nil for a node only after offering it to the writer unless the node is nil or its type is none of file, dir, symlink (added after a seeded change). (tar-mode-bits-independent) dumpNodeTar ORs each of the tar bits 04000/02000/01000 into header.Mode behind a test of a bit of node.Mode, and the three are not mutually exclusive — one run can set all of them (added after a seeded change that turned the three ifs into one switch, so 06755 came out as 04755). Not decided: entry order across directories, permission bits and link targets.",
 		Assumptions: commonAssumptions,
 		Technique:   "static analysis: enumeration of channel sends + CFG edge cuts on the type test of the sent value (go/ssa)",
-		Run:         func(c *eng.Ctx) { ruleDumpableFilter(c); ruleOrderedContent(c); ruleEveryDumpableSent(c) },
+		Run:         func(c *eng.Ctx) { ruleDumpableFilter(c); ruleOrderedContent(c); ruleEveryDumpableSent(c); ruleTarModeBitsIndependent(c) },
 		Controls: []Control{
+			{Name: "setgid-only-without-setuid", File: "internal/dump/tar.go",
+				Old: "	}\n	if node.Mode&os.ModeSetgid != 0 {", New: "	} else if node.Mode&os.ModeSetgid != 0 {", Rule: "tar-mode-bits-independent"},
 			{Name: "symlinks-filtered-out-silently", File: "internal/dump/common.go",
 				Old: "		if node.Type != data.NodeTypeFile && node.Type != data.NodeTypeDir && node.Type != data.NodeTypeSymlink {\n			return nil\n		}", New: "		if node.Type != data.NodeTypeFile && node.Type != data.NodeTypeDir {\n			return nil\n		}", Rule: "every-dumpable-sent"},
 			{Name: "root-nodes-unfiltered", File: "internal/dump/common.go",
